@@ -208,6 +208,12 @@ func genNullProg(t *rapid.T) *NullProgCase {
 	}
 	want := g.AnyResultType()
 	e := g.Expr(want)
+	if rapid.IntRange(0, 2).Draw(t, "cmp") == 0 {
+		// == / != between two containers that hold optionals at the same
+		// position, present on one side and absent on the other (or both alike)
+		g.Stats["optional-comparison"]++
+		e = m.Call("if", optionalComparison(t, g), e, g.Expr(want))
+	}
 	c := &NullProgCase{NilStyle: rapid.Bool().Draw(t, "nilstyle")}
 	c.E, c.Env, c.Vals, c.Stats = e, g.Env, g.Vals, g.Stats
 	for n, v := range c.Vals {
@@ -216,6 +222,61 @@ func genNullProg(t *rapid.T) *NullProgCase {
 		c.Env[n] = v.T
 	}
 	return c
+}
+
+// optionalComparison builds  C(a) == C(b)  (or !=) where a, b are fresh optional
+// variables of one type with independently drawn presence and C puts them at the
+// same position of a list, nested list, map, object, or list of objects bound
+// from the host.
+func optionalComparison(t *rapid.T, g *gen.G) *m.Expr {
+	el := pick2(t, []*m.Type{m.Num, m.Str, m.Bool, m.List(m.Num), m.Obj(m.Field{Name: "a", T: m.Num})})
+	mk := func(label string) *m.Val {
+		if rapid.Bool().Draw(t, label) {
+			return m.VJust(el, gen.Value(t, el, gen.ValOpt{MaxLen: 2, Clear: true}))
+		}
+		return m.VNothing(el)
+	}
+	va, vb := mk("a-present"), mk("b-present")
+	if va.P != nil && vb.P != nil && rapid.Bool().Draw(t, "same-payload") {
+		vb = m.VJust(el, va.P)
+	}
+	var l, r *m.Expr
+	shape := rapid.IntRange(1, 6).Draw(t, "shape") // (== has no overload for optionals themselves)
+	if shape == 6 {
+		// the containers themselves come from the host: lists of objects with an optional field
+		ot := m.Obj(m.Field{Name: "f", T: m.Maybe(el)}, m.Field{Name: "g", T: m.Num})
+		n := rapid.IntRange(1, 3).Draw(t, "len")
+		at := rapid.IntRange(0, n-1).Draw(t, "at")
+		xs, ys := make([]*m.Val, n), make([]*m.Val, n)
+		for i := range xs {
+			shared := mk("shared")
+			xs[i] = m.VObj(ot, shared, m.VNum(float64(i)))
+			ys[i] = m.VObj(ot, shared, m.VNum(float64(i)))
+			if i == at {
+				xs[i] = m.VObj(ot, va, m.VNum(float64(i)))
+				ys[i] = m.VObj(ot, vb, m.VNum(float64(i)))
+			}
+		}
+		l = g.FreshVar(m.List(ot), m.VList(ot, xs...))
+		r = g.FreshVar(m.List(ot), m.VList(ot, ys...))
+	} else {
+		a, b := g.FreshVar(m.Maybe(el), va), g.FreshVar(m.Maybe(el), vb)
+		switch shape {
+		case 1:
+			l, r = m.ListE(a), m.ListE(b)
+		case 2:
+			s := g.FreshVar(m.Maybe(el), mk("shared"))
+			l, r = m.ListE(s, a), m.ListE(s, b)
+		case 3:
+			l, r = m.ListE(m.ListE(a)), m.ListE(m.ListE(b))
+		case 4:
+			l, r = m.MapE(m.Lit("str", `"k"`), a), m.MapE(m.Lit("str", `"k"`), b)
+		default:
+			// (== has no overload for objects themselves either: inside a list)
+			l, r = m.ListE(m.ObjE([]string{"f", "n"}, []*m.Expr{a, m.Lit("num", "1")})), m.ListE(m.ObjE([]string{"f", "n"}, []*m.Expr{b, m.Lit("num", "1")}))
+		}
+	}
+	return m.Infix(pick2(t, []string{"==", "!="}), l, r)
 }
 
 func pick2[T any](t *rapid.T, xs []T) T { return xs[rapid.IntRange(0, len(xs)-1).Draw(t, "pick")] }
